@@ -37,6 +37,8 @@ inductive Op where
   | reuse (src layer lsrc cout : Nat) (a : LAttr)  -- the searchable conv / linear layer defined at node
                                            -- `layer` (where it is applied to `lsrc`) applied again, to
                                            -- `src` (`a.osz` of this call site)
+  | reuseDw (src layer lsrc : Nat) (a : LAttr)  -- the searchable depthwise layer defined at node `layer`
+                                           -- (applied there to `lsrc`) applied again, to `src`
   | output (src : Nat)
   deriving Repr
 
@@ -45,7 +47,7 @@ abbrev Prog := List Op
 def Op.inputs : Op → List Nat
   | .input _ => [] | .conv s _ _ => [s] | .dw s _ => [s] | .lin s _ _ => [s]
   | .fixed s _ _ _ => [s] | .fixedDw s _ => [s] | .chan s => [s] | .add a b => [a, b]
-  | .cat ss => ss | .tcat ss => ss | .flat s _ => [s] | .reuse s _ _ _ _ => [s] | .output s => [s]
+  | .cat ss => ss | .tcat ss => ss | .flat s _ => [s] | .reuse s _ _ _ _ => [s] | .reuseDw s _ _ _ => [s] | .output s => [s]
 
 /-- `is_features_defining_op` -/
 def Op.defining : Op → Bool
@@ -67,7 +69,7 @@ def widthStep (w : List Nat) (op : Op) : Nat :=
   | .fixed _ c _ _ => c | .fixedDw s _ => w.getD s 0 | .chan s => w.getD s 0
   | .add a _ => w.getD a 0 | .cat ss => (ss.map (w.getD · 0)).sum
   | .tcat ss => (match ss with | [] => 0 | s :: _ => w.getD s 0)
-  | .flat s m => w.getD s 0 * m | .reuse _ _ _ c _ => c | .output s => w.getD s 0
+  | .flat s m => w.getD s 0 * m | .reuse _ _ _ c _ => c | .reuseDw s _ _ _ => w.getD s 0 | .output s => w.getD s 0
 
 /-- static number of features of every node (`tensor_meta.shape[1]`) -/
 def widths (p : Prog) : List Nat := p.foldl (fun w op => w ++ [widthStep w op]) []
@@ -79,6 +81,7 @@ def keptEdges (p : Prog) : List (Nat × Nat) :=
   (p.zipIdx.map fun (op, n) =>
     match op with
     | .reuse s o ls _ _ => [(o, n), (ls, s)]
+    | .reuseDw s _ ls _ => [(s, n), (ls, s)]
     | _ => if op.defining || op.isCat then [] else op.inputs.map (·, n)).flatten
 
 def relabel (es : List (Nat × Nat)) (l : List Nat) : List Nat :=
@@ -169,6 +172,7 @@ def maskStep (p : Prog) (labels : List Nat) (alphaOf : Nat → List Rat) (ms : L
   | .tcat ss => (match ss with | [] => [] | s :: _ => ms.getD s [])
   | .flat s m => expand (ms.getD s []) m
   | .reuse .. => ownMask p labels alphaOf x.2
+  | .reuseDw .. => ownMask p labels alphaOf x.2
   | .output s => ms.getD s []
 
 /-- alive mask of the tensor produced by every node, as the features calculators report it -/
@@ -190,6 +194,7 @@ def taintStep (t : List Bool) (op : Op) : Bool :=
   | .input _ => false | .conv .. => false | .lin .. => false | .fixed .. => false | .reuse .. => false
   | .cat _ => true | .flat .. => true
   | .dw s _ => t.getD s false | .fixedDw s _ => t.getD s false | .chan s => t.getD s false
+  | .reuseDw s _ _ _ => t.getD s false
   | .add a b => t.getD a false || t.getD b false
   | .tcat ss => ss.any (t.getD · false)
   | .output s => t.getD s false
@@ -204,6 +209,7 @@ def supported (p : Prog) : Bool :=
     | .dw s _ => !(t.getD s false)
     | .fixedDw s _ => !(t.getD s false)
     | .reuse s _ ls _ _ => !(t.getD s false) && !(t.getD ls false)
+    | .reuseDw s _ ls _ => !(t.getD s false) && !(t.getD ls false)
     | _ => true
 
 /-- sources exist and sizes agree (what makes the seed network run at all) -/
@@ -220,6 +226,9 @@ def wellShaped (p : Prog) : Bool :=
     | .reuse s o ls c _ => o < n && (match getOp p o with
         | .conv s' c' _ => c' == c && s' == ls && ls < o && w.getD s 0 == w.getD ls 0
         | .lin s' c' _ => c' == c && s' == ls && ls < o && w.getD s 0 == w.getD ls 0
+        | _ => false)
+    | .reuseDw s o ls _ => o < n && (match getOp p o with
+        | .dw s' _ => s' == ls && ls < o && w.getD s 0 == w.getD ls 0
         | _ => false)
     | _ => true
 
@@ -278,6 +287,7 @@ def nodeOps (p : Prog) (ms : List (List Bool)) (full : Bool) (n : Nat) : Nat :=
       | .conv .. => siteParams ms p n a * a.osz
       | .lin .. => siteParams ms p n a
       | _ => 0)
+  | .reuseDw _ _ _ a => countT (inMask p ms n) * (a.k + b2n a.bias) * a.osz
   | _ => 0
 
 def costParams (p : Prog) (ms : List (List Bool)) (full : Bool) : Nat :=
@@ -306,6 +316,9 @@ def exportedNodeOps (p : Prog) (ms : List (List Bool)) (n : Nat) : Nat :=
       | .conv .. => (pl.outKept.length * (pl.inKept.length * a.k) + b2n a.bias * pl.outKept.length) * a.osz
       | .lin .. => pl.outKept.length * (pl.inKept.length * a.k) + b2n a.bias * pl.outKept.length
       | _ => 0)
+  | .reuseDw _ o _ a =>
+      let pl := planOf p ms o
+      (pl.outKept.length * a.k + b2n a.bias * pl.outKept.length) * a.osz
   | _ => 0
 
 def exportedParams (p : Prog) (ms : List (List Bool)) : Nat :=
